@@ -55,7 +55,7 @@ CLAIMS = {
  "C10": ("Theorems into_correct (for every generated impl and value, x.into() is the field designated for T — sole field, else marked, else "
          "unique same-typed — through the marker's method / unchanged when already T / Into<T> otherwise), select_ok_iff / select_error_iff "
          "(the two selection loops = the designation function, refused exactly when not unique), items_targets (one impl per requested "
-         "target, no other). generated_calls_unchanged_* (into): the absolute `::core::..` paths named by the handler's quote! templates, regenerated from /repo/src, are exactly the listed ones - the generated code calls nothing else. Tie: real macro + rustc with source/target types whose conversions are pairwise distinguishable. End to end (Props/E2E.lean): into_handler_end_to_end with intoSelect_select / intoLoop_markerLoop / intoSame_sameTypeLoop (the attribute layer's field selection for a target and the behavioural layer's are the same procedure, for every injective numbering of the normalised type strings): one item per requested target in the order of the sorted target map, and for each the generated impl returns the field designated by the reference semantics on the markers read from the fields' own attributes. Tie B6. The normalisation of target and field types (to_hash_type) is inside the model (Ty.hashTy; hashTy_of_refs, hashTy_of_not_ref) and computed by the driver from syn's type trees.",
+         "target, no other). generated_calls_unchanged_* (into): the absolute `::core::..` paths named by the handler's quote! templates, regenerated from /repo/src, are exactly the listed ones - the generated code calls nothing else. debug_asserts_pure (Props/Profile.lean, also an obligation of C02-C09 and C20): no debug_assert! of /repo/src calls a mutating method or assigns (regenerated table) - the macro does the same work when cargo's release profile compiles its debug assertions out. Tie: real macro + rustc with source/target types whose conversions are pairwise distinguishable. End to end (Props/E2E.lean): into_handler_end_to_end with intoSelect_select / intoLoop_markerLoop / intoSame_sameTypeLoop (the attribute layer's field selection for a target and the behavioural layer's are the same procedure, for every injective numbering of the normalised type strings): one item per requested target in the order of the sorted target map, and for each the generated impl returns the field designated by the reference semantics on the markers read from the fields' own attributes. Tie B6. The normalisation of target and field types (to_hash_type) is inside the model (Ty.hashTy; hashTy_of_refs, hashTy_of_not_ref) and computed by the driver from syn's type trees.",
          COMMON_NOTE + "types are compared by normalised token string as the code does (opaque ids in the model); the iteration order of the target map is an input of the model here and the subject of C16.",
          "Lean 4 theorem + differential correspondence on returned values"),
  "C08": ("Theorems default_correct (accepted => T::default() is the type-level expression, else the struct / marked-or-only variant / "
@@ -95,7 +95,7 @@ CLAIMS = {
          "clauses: deref_no_marker_refused / deref_two_markers_refused, default_no_variant_refused / default_two_variants_refused, "
          "default_union_no_field_refused / default_union_two_fields_refused (via the loop specifications derefLoop_spec, defaultVariantLoop_spec, "
          "defaultFieldLoop_spec over the number of markers), and at the behavioural level Props/C08-C10 (ambiguous_refused, struct_refused_iff, "
-         "variant_refused_iff, struct_target_refused_iff). Tie: ~1900 "
+         "variant_refused_iff, struct_target_refused_iff). debug_asserts_pure (Props/Profile.lean, also an obligation of C02-C09 and C20): no debug_assert! of /repo/src calls a mutating method or assigns (regenerated table) - the macro does the same work when cargo's release profile compiles its debug assertions out. Tie: ~1900 "
          "invalid-by-construction inputs (every clause x shapes x positions x spellings) must be refused by the real macro in-process and by "
          "the model with the same diagnostic class; valid inputs must be accepted by both.",
          COMMON_NOTE + "diagnostic classes are obtained from message texts by a fixed prefix table (vlib/attr.py); the handler-level clauses (unit variant, nameless Debug) are covered by the correspondence, not by a separate theorem.",
@@ -138,7 +138,7 @@ CLAIMS = {
          "debugFieldName_fresh (the hasher type parameter and the Debug wrapper struct are the first candidate H, H_, ... / Educe__DebugField, "
          "Educe__DebugField_, ... that neither a generic parameter nor - for the struct - the type itself uses). (iii) "
          "method_calls_only_on_fmt_locals: over the regenerated templates, every method-call expression is a core::fmt builder call on `f` or "
-         "`builder` (a call written `a.cmp(b)` would be resolved through the user's type, inherent methods first). Tie: rustc as oracle - five definition families x all traits x name "
+         "`builder` (a call written `a.cmp(b)` would be resolved through the user's type, inherent methods first). binder_formats_unchanged pins the regenerated table of format_ident! formats handler by handler. Tie: rustc as oracle - five definition families x all traits x name "
          "assignments drawn from the templates' identifier inventory, primitive names and binder-collision families, compiled inside a module in "
          "which every template identifier, prelude name, primitive type, `core`/`std` and macro name means something else, results compared with "
          "the neutral twin, with decoy inherent methods on every type and every third assignment through a macro_rules! macro with "
